@@ -138,15 +138,20 @@ def time_split(
         raise ValueError('time_split: pipeline cannot be None')
 
     pipeline = rx.pipe(*pipeline) if type(pipeline) is list else pipeline
-    _split, outer_obs = time_split_mux(
-        time_mapper=time_mapper,
-        active_timeout=active_timeout,
-        inactive_timeout=inactive_timeout,
-        closing_mapper=closing_mapper,
-        include_closing_item=include_closing_item)
 
-    return rx.pipe(
-        _split,
-        pipeline,
-        demux_mux_observable(outer_obs),
-    )
+    def _time_split_op(source):
+        # one outer observer per application of the operator
+        _split, outer_obs = time_split_mux(
+            time_mapper=time_mapper,
+            active_timeout=active_timeout,
+            inactive_timeout=inactive_timeout,
+            closing_mapper=closing_mapper,
+            include_closing_item=include_closing_item)
+
+        return rx.pipe(
+            _split,
+            pipeline,
+            demux_mux_observable(outer_obs),
+        )(source)
+
+    return _time_split_op
